@@ -79,6 +79,8 @@ var siteSpecs = []siteSpec{
 	{"\"\"", "\"a\"", nil, false},
 	{"uint64(1 << 63)", "int64(-1 << 63)", []string{"uint64(1 << 63)"}, false},
 	{"200", "uint8(200)", []string{"199", "200", "201"}, true},
+	{"[2]T{}", "struct{ v U }{}", []string{"[1]int{}", "[1][1]T{}"}, false},
+	{"struct{ a [2]U }{}", "[2]T{}", nil, false},
 	{"[2]string{\n\t\t\"q\",\n\t}", "gv", nil, false},
 	{"gv", "func() int {\n\t\treturn 1\n\t}()", []string{"1"}, false},
 }
@@ -202,7 +204,7 @@ func valOf(t *hutil.Target, sizes types.Sizes, e ast.Expr) val {
 	if typ == nil {
 		typ = types.Typ[types.Invalid]
 	}
-	if _, isTP := typ.(*types.TypeParam); !isTP {
+	if sizeKnown(typ) {
 		sz := sizes.Sizeof(typ)
 		v.Size = &sz
 	}
@@ -211,6 +213,28 @@ func valOf(t *hutil.Target, sizes types.Sizes, e ast.Expr) val {
 		v.Int = &s
 	}
 	return v
+}
+
+// sizeKnown: the size of a type is a fact of the platform unless a type parameter decides it (a type parameter itself, an
+// array of or a struct with one): then it has no value
+func sizeKnown(typ types.Type) bool {
+	switch t := types.Unalias(typ).(type) {
+	case *types.TypeParam:
+		return false
+	case *types.Array:
+		return sizeKnown(t.Elem())
+	case *types.Struct:
+		for i := 0; i < t.NumFields(); i++ {
+			if !sizeKnown(t.Field(i).Type()) {
+				return false
+			}
+		}
+	case *types.Named:
+		if _, ok := t.Underlying().(*types.Interface); !ok {
+			return sizeKnown(t.Underlying())
+		}
+	}
+	return true
 }
 
 // ---------------------------------------------------------------- atoms and trees
